@@ -54,7 +54,7 @@ def main():
         "Non-trivial = (instance, progeny) with a known parent and model probability strictly between 0 and 1."
     )
     try:
-        r = tlc.run(SPEC, "Inheritance", "MC_%s.cfg" % tier, timeout=3000)
+        r = tlc.run(SPEC, "Inheritance", "MC_%s.cfg" % tier, timeout=3000 if tier == "quick" else 7000)
         ck.add_tlc(r, "Inheritance")
         if r.violated:
             ck.violation("model", {"invariant": r.violated, "text": r.error_text[:1500]}, key={"model": "Inheritance"})
